@@ -80,6 +80,7 @@ structure ReqCfg where
   n : Nat
   miss : Option Nat
   bh : List BH
+  parkFinish : Bool := false    -- harness: park the executor between its last transaction and FinishTask
 deriving DecidableEq, Repr
 
 inductive RState | queued | running | paused | completing
@@ -197,6 +198,7 @@ inductive WPhase
   | gotUpdates (ups : List UP) (ops : List TxOp) (present : Bool)
   | inHook (ops : List TxOp) (cfu : Option WErr)      -- parked inside the block hook
   | blockedTx (ops : List TxOp) (k : AfterTx) (granted : Bool)  -- waiting for the allocator
+  | preFinish (err : Option WErr)               -- about to call FinishTask (schedule control point)
   | waitFinish                                  -- FinishTask sent
   | done
 deriving DecidableEq, Repr
@@ -205,6 +207,7 @@ structure Worker where
   peer : Peer
   id : Id
   phase : WPhase
+  parkF : Bool := false         -- park once before FinishTask
 deriving DecidableEq, Repr
 
 inductive ReqMsg
@@ -299,6 +302,7 @@ structure State where
   leafLen : Nat := 45                 -- encoded length of the last block of a chain
   innerLen : Nat := 88                -- encoded length of every other block
   limit : Nat := 0                    -- per-peer memory limit, 0 = unlimited
+  maxActive : Nat := 0                -- MaxOutstandingWorkPerPeer, 0 = unlimited
   table : List Resp := []
   closed : List Id := []              -- response streams that were closed
   queues : List PeerQ := []
@@ -579,7 +583,8 @@ def startTask (s : State) (w : Nat) : State :=
       if r.state == .completing then setPhase (taskDone s wk.peer wk.id) w .done
       else
         let s1 := if r.aux.started then s else emit s (.proc r.id)
-        setPhase (setState (modAux s1 r.id fun a => { a with started := true }) r.id .running) w .started
+        setWorker (setState (modAux s1 r.id fun a => { a with started := true }) r.id .running) w
+          fun x => { x with phase := .started, parkF := r.cfg.parkFinish }
 
 /-- finishTask -/
 def finishTask (s : State) (w : Nat) (err : Option WErr) : State :=
@@ -661,8 +666,14 @@ def finalStatus (r : Option Resp) : Option WErr → Nat
   | some .cancelCmd => stCancelled
   | some _ => stFailedUnknown
 
-def sendFinish (s : State) (w : Nat) (err : Option WErr) : State :=
+/-- manager.FinishTask (the executor's last act) -/
+def sendFinishNow (s : State) (w : Nat) (err : Option WErr) : State :=
   setPhase (sendMsg s (.finishTask w err)) w .waitFinish
+
+def sendFinish (s : State) (w : Nat) (err : Option WErr) : State :=
+  if ((workerOf s w).map (·.parkF)).getD false then
+    setWorker s w fun x => { x with phase := .preFinish err, parkF := false }
+  else sendFinishNow s w err
 
 /-- executeQuery after runTraversal returned `err` -/
 def executeQuery (s : State) (w : Nat) (wk : Worker) (err : Option WErr) : State :=
@@ -757,6 +768,7 @@ def wstep (s : State) (w : Nat) (pick : Nat) : Option State :=
         some (checkForUpdates (modAux s r.id fun a => { a with pos := a.pos + 1, ended := !present }) w wk [] present pick)
     | .gotUpdates ups ops present => some (applyUpdates s w wk ups ops present pick)
     | .inHook ops cfu => some (runTx s w wk ops (.afterBlock cfu true))
+    | .preFinish err => some (sendFinishNow s w err)
     | .blockedTx ops k true =>
       let s1 := buildNow s wk.peer wk.id ops
       match k with
@@ -855,7 +867,7 @@ deriving DecidableEq, Repr
 
 def popTask (s : State) (p : Peer) (id : Id) : Option State :=
   let q := getQ s p
-  if q.freeze == 0 && q.pending.any (·.1 == id) then
+  if q.freeze == 0 && q.pending.any (·.1 == id) && (s.maxActive == 0 || q.active.length < s.maxActive) then
     let s1 := setQ s { q with pending := q.pending.filter (·.1 != id), active := q.active ++ [id] }
     let w := s1.workers.length
     some (sendMsg { s1 with workers := s1.workers ++ [{ peer := p, id, phase := .waitStart }] } (.startTask w))
